@@ -132,7 +132,7 @@ exchange(void)
 	if (p) { br_ssl_engine_recvapp_ack(&cc.eng, l); AFTER(); }
 }
 static void
-finish(int who_closes)
+hs_finish(int who_closes)
 {
 	int i;
 	if (who_closes == 0) { br_ssl_engine_close(&cc.eng); AFTER(); } else { br_ssl_engine_close(&sc.eng); AFTER(); }
@@ -173,22 +173,22 @@ drive(const char *repo)
 			/* renegotiation, then resumption on a fresh connection */
 			if (i % 3 == 0) { br_ssl_engine_renegotiate(&cc.eng); AFTER(); handshake(100); exchange(); }
 			if (i % 3 == 1) { br_ssl_engine_renegotiate(&sc.eng); AFTER(); handshake(100); exchange(); }
-			finish((int)(i & 1));
+			hs_finish((int)(i & 1));
 			client_setup(sc_[i].s, 1, sc_[i].vmin, sc_[i].vmax, 837 + 597, 1, 0, 1);
 			server_setup(16384 + 325, 0, 0, 1, 0);
-			if (handshake(50)) { exchange(); finish(1); }
+			if (handshake(50)) { exchange(); hs_finish(1); }
 		}
 	}
 	/* small (half-duplex) buffers: maximum fragment length negotiation */
 	corrupt_at = 0;
 	client_setup(s_ecdhe_gcm, 1, BR_TLS12, BR_TLS12, 837, 0, 0, 0);
 	server_setup(sizeof sbuf, 1, 0, 0, 1);
-	if (handshake(100)) { exchange(); finish(0); }
+	if (handshake(100)) { exchange(); hs_finish(0); }
 	/* corrupted flights: one byte of the client->server (resp. every moved) stream flipped */
 	for (k = 1; k < 400; k += 3) {
 		corrupt_at = k; moved = 0;
 		client_setup(k & 1 ? s_rsa_cbc : s_ecdhe_gcm, 1, BR_TLS10, BR_TLS12, sizeof cbuf, 1, (int)(k & 2), 0);
 		server_setup(sizeof sbuf, 1, (int)(k & 2), 0, 1);
-		if (handshake(64)) { exchange(); finish(0); }
+		if (handshake(64)) { exchange(); hs_finish(0); }
 	}
 }
